@@ -8,6 +8,7 @@ from . import rules_extrema as RX
 from . import rules_skipnan as RK
 from . import rules_hist as RH
 from . import rules_terms as RT
+from . import rules_zones as RZ
 from .facts import AnchorMissing
 
 TRUSTED = [
@@ -68,6 +69,9 @@ def c16(ctx):
         mc.bins_index(bins_index, 2)
         mc.grid_index(grid_index, 2, bins_index)
     ctx.floor("R5", len([o for o in ctx.obs if o["rule"].startswith("R5")]), 16, "must-check obligations (8 per profile)")
+    # converse (in-range calls never panic), decided for the leaf functions the zone analysis covers
+    RZ.rule_r18_partition(ctx, ctx.prog("dev"))
+    RZ.rule_r18_leaves(ctx, ctx.prog("dev"))
     return dict(
         level="other",
         explanation="Rejection direction of C16, decided as a must-pass-through property of the CFG in both build profiles "
@@ -409,4 +413,22 @@ def c18(ctx):
     )
 
 
-PROPS = {"C06": c06, "C18": c18, "C12": c12, "C07": c07, "C09": c09, "C09": c09, "C10": c10, "C11": c11, "C13": c13, "C14": c14, "C05": c05, "C20": c20, "C16": c16, "C17": c17, "C04": c04, "C03": c03}
+def c15(ctx):
+    prog = ctx.prog("dev")
+    RZ.rule_r18_partition(ctx, prog)
+    # structural side conditions recorded with the clause: the only data movement is swap (R4 on this function) and the
+    # pivot is read by a bounds-checked index first (R5)
+    mc = RS.MustCheck(ctx, prog, rule="R5[dev]")
+    mc.strict(prog.method("Sort1dExt", "partition_mut"), 2)
+    return dict(
+        level="other",
+        explanation="Only the clause 'never panics for an in-range pivot position, including on a single-element array' is decided: a zone "
+                    "(difference-bound) abstract interpretation of partition_mut's dev-profile MIR under the precondition pivot_index < len "
+                    "computes invariants (1 ≤ i ≤ len, j ≤ len−1, branch refinements incl. disequality tightening) and must discharge every "
+                    "overflow Assert (n−1, i+=1, j−=1, i−1) and every bounds precondition of Index/swap. Sound for all array contents because "
+                    "element comparisons are treated as non-deterministic. The value-level postconditions (rank, strict/weak sides) are not "
+                    "decided by static analysis here.",
+    )
+
+
+PROPS = {"C06": c06, "C15": c15, "C18": c18, "C12": c12, "C07": c07, "C09": c09, "C09": c09, "C10": c10, "C11": c11, "C13": c13, "C14": c14, "C05": c05, "C20": c20, "C16": c16, "C17": c17, "C04": c04, "C03": c03}
